@@ -1,7 +1,19 @@
 (** C08 — bitword split/join.  Only the property theorems, each closed by
-    [exact], their axiom audit, and non-vacuity examples. *)
+    [exact], their axiom audit, and non-vacuity examples.
+
+    Vocabulary (Spec/BitwordSpec.v, Lib/Pack_bw.v): [msb_bits s] is the bit
+    string of the byte string s (most significant bit of each byte first);
+    [chunks n l] its consecutive complete n-element chunks; [val_msb] reads a
+    bit list as a binary numeral; [to_bits n x] are the n low bits of x, most
+    significant first; [pack l] cuts a bit list into bytes after zero-padding it
+    to a whole number of bytes.  The model (Model/Bitword.v) has the loops,
+    shift counts, masks and the uint8 accumulator of bitword.go; [None] is a
+    panic.  Strings are byte lists ([bytes_ok]: every element in [0,256)); sizes
+    and indexes are unbounded. *)
 From Coq Require Import ZArith List Bool.
-From Low Require Import Lib.MachInt Lib.Bits Lib.BitSeq Lib.Bytes Lib.Pack_bw Model.Bitword Spec.BitwordSpec Proofs.BitwordProofs.
+From Low Require Import Lib.MachInt Lib.Bits Lib.BitSeq Lib.Bytes Lib.Pack_bw Model.Bitword Spec.BitwordSpec
+  Lib.Lex Spec.BitwordSpecDirect Spec.BitwordSpecWiden
+  Proofs.BitwordProofs Proofs.BitwordToStr Proofs.BitwordFirstDiff Proofs.BitwordDirect Proofs.BitwordWiden Proofs.BitwordLcp Proofs.BitwordRoundTrip.
 Import ListNotations.
 Open Scope Z_scope.
 
@@ -12,3 +24,266 @@ Theorem C08_newBW : forall n, widthP n ->
   wordMask (newBW (Z.of_nat n)) = 2 ^ Z.of_nat n - 1.
 Proof. exact newBW_fields. Qed.
 Print Assumptions C08_newBW.
+
+(** FromStr(s) = the values of the consecutive n-bit chunks of the bits of s *)
+Theorem C08_FromStr : forall n s, widthP n -> bytes_ok s ->
+  FromStr (newBW (Z.of_nat n)) s = map val_msb (chunks n (msb_bits s)).
+Proof. exact FromStr_exact. Qed.
+Print Assumptions C08_FromStr.
+
+(** it has 8*len(s)/n words (no hypothesis on the bytes) *)
+Theorem C08_FromStr_length : forall n s, widthP n ->
+  zlen (FromStr (newBW (Z.of_nat n)) s) = 8 * zlen s / Z.of_nat n.
+Proof. exact FromStr_length. Qed.
+Print Assumptions C08_FromStr_length.
+
+(** every word FromStr produces is < 2^n *)
+Theorem C08_FromStr_in_range : forall n s, widthP n -> bytes_ok s ->
+  words_in n (FromStr (newBW (Z.of_nat n)) s).
+Proof. exact FromStr_in_range. Qed.
+Print Assumptions C08_FromStr_in_range.
+
+(** Get(s,i) = word i of FromStr(s), for every index in range; it does not panic there *)
+Theorem C08_Get_nth : forall n s i, widthP n -> 0 <= i < 8 * zlen s / Z.of_nat n ->
+  Get (newBW (Z.of_nat n)) s i = Some (nth (Z.to_nat i) (FromStr (newBW (Z.of_nat n)) s) 0).
+Proof. exact Get_nth. Qed.
+Print Assumptions C08_Get_nth.
+
+(** Get(s,i) = the value of bits [i*n, (i+1)*n) of s *)
+Theorem C08_Get : forall n s i, widthP n -> bytes_ok s -> 0 <= i < 8 * zlen s / Z.of_nat n ->
+  Get (newBW (Z.of_nat n)) s i = nthZ (map val_msb (chunks n (msb_bits s))) i.
+Proof. exact Get_exact. Qed.
+Print Assumptions C08_Get.
+
+(** ToStr of in-range words = their bits, n per word, MSB first, one after the
+    other, zero-padded to whole bytes; never panics (uint8 accumulator and the
+    byte shift by [width] included) *)
+Theorem C08_ToStr : forall n ws, widthP n -> words_in n ws ->
+  ToStr (newBW (Z.of_nat n)) ws = Some (pack (flat_map (to_bits n) ws)).
+Proof. exact ToStr_exact. Qed.
+Print Assumptions C08_ToStr.
+
+(** the packed string has ceil(len(ws)*n/8) bytes *)
+Theorem C08_ToStr_length : forall n ws, widthP n ->
+  zlen (pack (flat_map (to_bits n) ws)) = (zlen ws * Z.of_nat n + 7) / 8.
+Proof. exact spec_ToStr_length. Qed.
+Print Assumptions C08_ToStr_length.
+
+(** ToStr(FromStr(s)) = s *)
+Theorem C08_ToStr_FromStr : forall n s, widthP n -> bytes_ok s ->
+  ToStr (newBW (Z.of_nat n)) (FromStr (newBW (Z.of_nat n)) s) = Some s.
+Proof. exact ToStr_FromStr. Qed.
+Print Assumptions C08_ToStr_FromStr.
+
+(** FirstDiff(a,b,from,end) = the first index of the window [from, lim) at which
+    the word lists differ, else lim ([spec_FirstDiff] scans the window of the
+    naive word lists with [find]); lim = min(end', words(a), words(b)), end' =
+    words(a) for end = -1.  Covers from >= lim, end beyond either string, end = -1. *)
+Theorem C08_FirstDiff : forall n a b from end_, widthP n -> bytes_ok a -> bytes_ok b ->
+  0 <= from -> -1 <= end_ ->
+  FirstDiff (newBW (Z.of_nat n)) a b from end_ = Some (spec_FirstDiff n a b from end_).
+Proof. exact FirstDiff_exact. Qed.
+Print Assumptions C08_FirstDiff.
+
+(** the same as a minimum: the result r is lim when the window is empty;
+    otherwise from <= r <= lim, the words agree at every index of [from, r), and
+    differ at r when r < lim *)
+Theorem C08_FirstDiff_min : forall n a b from end_, widthP n -> bytes_ok a -> bytes_ok b ->
+  0 <= from -> -1 <= end_ ->
+  let wa := map val_msb (chunks n (msb_bits a)) in
+  let wb := map val_msb (chunks n (msb_bits b)) in
+  let lim := lim_of n a b end_ in
+  exists r, FirstDiff (newBW (Z.of_nat n)) a b from end_ = Some r /\
+    (lim <= from -> r = lim) /\
+    (from <= lim -> from <= r <= lim /\
+       (forall i, from <= i < r -> nthZ wa i = nthZ wb i) /\
+       (r < lim -> nthZ wa r <> nthZ wb r)).
+Proof. exact FirstDiff_min. Qed.
+Print Assumptions C08_FirstDiff_min.
+
+(** FromStrs / ToStrs apply the conversions element-wise *)
+Theorem C08_FromStrs : forall n ss, widthP n -> Forall bytes_ok ss ->
+  FromStrs (newBW (Z.of_nat n)) ss = map (fun s => map val_msb (chunks n (msb_bits s))) ss.
+Proof. exact FromStrs_exact. Qed.
+Print Assumptions C08_FromStrs.
+
+Theorem C08_ToStrs : forall n wss, widthP n -> Forall (words_in n) wss ->
+  ToStrs (newBW (Z.of_nat n)) wss = Some (map (fun ws => pack (flat_map (to_bits n) ws)) wss).
+Proof. exact ToStrs_exact. Qed.
+Print Assumptions C08_ToStrs.
+
+(** * the word-by-word reading used by the correspondence run on large inputs
+    (ops bitword.Get/large, FirstDiff/large, FromStr/large, ToStr/large) is the same specification *)
+
+(** "word i is the n bits of s starting at bit i*n": [spec_word] = indexing the chunk list *)
+Theorem C08_direct_word : forall n s i, (0 < n)%nat ->
+  spec_word n s i = nthZ (map val_msb (chunks n (msb_bits s))) i.
+Proof. exact spec_word_eq. Qed.
+Print Assumptions C08_direct_word.
+
+Theorem C08_direct_FirstDiff : forall n a b from end_, (0 < n)%nat ->
+  spec_FirstDiff_direct n a b from end_ = spec_FirstDiff n a b from end_.
+Proof. exact spec_FirstDiff_direct_eq. Qed.
+Print Assumptions C08_direct_FirstDiff.
+
+Theorem C08_direct_FromStr : forall n s, (0 < n)%nat ->
+  spec_FromStr_seq n s = map val_msb (chunks n (msb_bits s)).
+Proof. exact spec_FromStr_seq_eq. Qed.
+Print Assumptions C08_direct_FromStr.
+
+Theorem C08_direct_ToStr : forall n ws, spec_ToStr_seq n ws = pack (flat_map (to_bits n) ws).
+Proof. exact spec_ToStr_seq_eq. Qed.
+Print Assumptions C08_direct_ToStr.
+
+(** Get and FromStr against the word-by-word reading, as observed by bitword.Get/large *)
+Theorem C08_Get_word : forall n s i, widthP n -> bytes_ok s -> 0 <= i < nwords n s ->
+  Get (newBW (Z.of_nat n)) s i = spec_word n s i /\
+  nthZ (FromStr (newBW (Z.of_nat n)) s) i = spec_word n s i.
+Proof. exact Get_word. Qed.
+Print Assumptions C08_Get_word.
+
+(** * widened: around the statement of C08 *)
+
+(** FromStr keeps the order of the strings (doc comment of FromStr: "the result byte slice keeps
+    order with the original string"): comparing the word slices byte-wise = comparing the strings *)
+Theorem C08_FromStr_order : forall n a, widthP n -> forall b, bytes_ok a -> bytes_ok b ->
+  bytes_cmp (FromStr (newBW (Z.of_nat n)) a) (FromStr (newBW (Z.of_nat n)) b) = bytes_cmp a b.
+Proof. exact FromStr_order. Qed.
+Print Assumptions C08_FromStr_order.
+
+Theorem C08_FromStr_injective : forall n a b, widthP n -> bytes_ok a -> bytes_ok b ->
+  FromStr (newBW (Z.of_nat n)) a = FromStr (newBW (Z.of_nat n)) b -> a = b.
+Proof. exact FromStr_inj. Qed.
+Print Assumptions C08_FromStr_injective.
+
+(** Get for EVERY int index: the word inside [0, words), a panic ([None]) outside *)
+Theorem C08_Get_any : forall n s i, widthP n -> bytes_ok s ->
+  Get (newBW (Z.of_nat n)) s i = spec_word n s i.
+Proof. exact Get_any. Qed.
+Print Assumptions C08_Get_any.
+
+Theorem C08_Get_panics_outside : forall n s i, widthP n -> ~ (0 <= i < 8 * zlen s / Z.of_nat n) ->
+  Get (newBW (Z.of_nat n)) s i = None.
+Proof. exact Get_outside. Qed.
+Print Assumptions C08_Get_panics_outside.
+
+(** FirstDiff for EVERY (from, end): lim when the window [from, lim) is empty (also for negative
+    from or end < -1), a panic when it is not empty and from < 0, else the first differing index *)
+Theorem C08_FirstDiff_any : forall n a b from end_, widthP n -> bytes_ok a -> bytes_ok b ->
+  FirstDiff (newBW (Z.of_nat n)) a b from end_ = spec_FirstDiff_any n a b from end_.
+Proof. exact FirstDiff_any. Qed.
+Print Assumptions C08_FirstDiff_any.
+
+(** ToStr on ARBITRARY words (no range hypothesis at all): never panics; output byte k is the
+    base-2^n numeral of the k-th group of 8/n words (missing words = 0) modulo 256 - the carries of
+    the uint8 accumulator; on in-range words this is the packing of C08_ToStr *)
+Theorem C08_ToStr_any : forall n ws, widthP n ->
+  ToStr (newBW (Z.of_nat n)) ws = Some (spec_ToStr_any n ws).
+Proof. exact ToStr_any. Qed.
+Print Assumptions C08_ToStr_any.
+
+Theorem C08_ToStr_any_in_range : forall n ws, widthP n -> words_in n ws ->
+  spec_ToStr_any n ws = pack (flat_map (to_bits n) ws).
+Proof. exact spec_ToStr_any_in. Qed.
+Print Assumptions C08_ToStr_any_in_range.
+
+(** FirstDiff(a, b, 0, -1) = the length of the longest common prefix of the two word lists
+    (the use the trie code makes of it) *)
+Theorem C08_FirstDiff_lcp : forall n a b, widthP n ->
+  FirstDiff (newBW (Z.of_nat n)) a b 0 (-1) =
+  Some (zlen (lcp Z.eqb (FromStr (newBW (Z.of_nat n)) a) (FromStr (newBW (Z.of_nat n)) b))).
+Proof. exact FirstDiff_lcp. Qed.
+Print Assumptions C08_FirstDiff_lcp.
+
+(** the round trip in the other direction: FromStr(ToStr(ws)) = ws followed by the zero words that
+    complete the last byte ([spec_FromStr_ToStr]); = ws for a whole number of bytes *)
+Theorem C08_FromStr_ToStr : forall n ws, widthP n -> words_in n ws ->
+  exists s, ToStr (newBW (Z.of_nat n)) ws = Some s /\
+            FromStr (newBW (Z.of_nat n)) s = spec_FromStr_ToStr n ws.
+Proof. exact FromStr_ToStr. Qed.
+Print Assumptions C08_FromStr_ToStr.
+
+Theorem C08_FromStr_ToStr_whole : forall n ws, widthP n -> words_in n ws -> (length ws mod (8 / n) = 0)%nat ->
+  exists s, ToStr (newBW (Z.of_nat n)) ws = Some s /\ FromStr (newBW (Z.of_nat n)) s = ws.
+Proof. exact FromStr_ToStr_whole. Qed.
+Print Assumptions C08_FromStr_ToStr_whole.
+
+(** * non-vacuity *)
+
+(** the four widths satisfy the hypothesis; a string with high bits set *)
+Example C08_FromStr_nonvacuous :
+  widthP 1 /\ widthP 2 /\ widthP 4 /\ widthP 8 /\ bytes_ok [0xa5; 0xff; 0x01] /\
+  FromStr (newBW 2) [0xa5; 0xff; 0x01] = [2; 2; 1; 1; 3; 3; 3; 3; 0; 0; 0; 1] /\
+  FromStr (newBW 4) [0xa5; 0xff; 0x01] = [0xa; 5; 0xf; 0xf; 0; 1] /\
+  FromStr (newBW 8) [0xa5; 0xff; 0x01] = [0xa5; 0xff; 0x01] /\
+  FromStr (newBW 1) [0xa5] = [1; 0; 1; 0; 0; 1; 0; 1] /\
+  words_in 2 (FromStr (newBW 2) [0xa5; 0xff; 0x01]).
+Proof.
+  unfold widthP. repeat split; auto; try (apply bytes_okb_ok; reflexivity).
+  apply words_inb_in. reflexivity.
+Qed.
+
+(** Get in range (last word of a 3-byte string) and the panic just outside *)
+Example C08_Get_nonvacuous :
+  0 <= 11 < 8 * zlen [0xa5; 0xff; 0x01] / Z.of_nat 2 /\
+  Get (newBW 2) [0xa5; 0xff; 0x01] 11 = Some 1 /\
+  Get (newBW 4) [0xa5; 0xff; 0x01] 0 = Some 0xa /\
+  Get (newBW 2) [0xa5; 0xff; 0x01] 12 = None.
+Proof. vm_compute. intuition congruence. Qed.
+
+(** ToStr with a partial last byte (three 2-bit words, five 1-bit words) and a full round trip *)
+Example C08_ToStr_nonvacuous :
+  words_in 2 [3; 0; 1] /\ ToStr (newBW 2) [3; 0; 1] = Some [0xc4] /\
+  words_in 1 [1; 1; 1; 1; 1; 1; 1; 1; 1] /\ ToStr (newBW 1) [1; 1; 1; 1; 1; 1; 1; 1; 1] = Some [0xff; 0x80] /\
+  words_in 8 [0xff; 0x80] /\ ToStr (newBW 8) [0xff; 0x80] = Some [0xff; 0x80] /\
+  ToStr (newBW 4) (FromStr (newBW 4) [0xa5; 0xff; 0x01]) = Some [0xa5; 0xff; 0x01] /\
+  ToStr (newBW 4) [] = Some [].
+Proof. repeat split; try (apply words_inb_in; reflexivity); reflexivity. Qed.
+
+(** FirstDiff: a difference inside the window, a window that starts after it,
+    end = -1, end beyond the shorter string, from >= end *)
+Example C08_FirstDiff_nonvacuous :
+  bytes_ok [0xa5; 0xff] /\ bytes_ok [0xa5; 0xf7; 0x00] /\
+  FirstDiff (newBW 1) [0xa5; 0xff] [0xa5; 0xf7; 0x00] 0 (-1) = Some 12 /\
+  FirstDiff (newBW 4) [0xa5; 0xff] [0xa5; 0xf7; 0x00] 0 100 = Some 3 /\
+  FirstDiff (newBW 4) [0xa5; 0xff] [0xa5; 0xf7; 0x00] 0 3 = Some 3 /\
+  FirstDiff (newBW 2) [0xa5; 0xff] [0xa5; 0xf7; 0x00] 7 (-1) = Some 8 /\
+  FirstDiff (newBW 2) [0xa5; 0xff] [0xa5; 0xf7; 0x00] 9 4 = Some 4 /\
+  lim_of 2 [0xa5; 0xff] [0xa5; 0xf7; 0x00] (-1) = 8.
+Proof. repeat split; try (apply bytes_okb_ok; reflexivity); reflexivity. Qed.
+
+Example C08_maps_nonvacuous :
+  Forall bytes_ok [[0xa5]; []; [0x01; 0x80]] /\
+  FromStrs (newBW 4) [[0xa5]; []; [0x01; 0x80]] = [[0xa; 5]; []; [0; 1; 8; 0]] /\
+  Forall (words_in 4) [[0xa; 5]; []; [0; 1; 8]] /\
+  ToStrs (newBW 4) [[0xa; 5]; []; [0; 1; 8]] = Some [[0xa5]; []; [0x01; 0x80]].
+Proof.
+  repeat split; try reflexivity.
+  - repeat (apply Forall_cons; [apply bytes_okb_ok; reflexivity|]). apply Forall_nil.
+  - repeat (apply Forall_cons; [apply words_inb_in; reflexivity|]). apply Forall_nil.
+Qed.
+
+Example C08_direct_nonvacuous :
+  spec_word 4 [0xa5; 0xff; 0x01] 5 = Some 1 /\ spec_word 4 [0xa5; 0xff; 0x01] 6 = None /\
+  spec_word 4 [0xa5; 0xff; 0x01] (-1) = None /\
+  spec_FirstDiff_direct 2 [0xa5; 0xff] [0xa5; 0xf7; 0x00] 0 (-1) = 6 /\
+  spec_FromStr_seq 2 [0xa5; 0xff; 0x01] = [2; 2; 1; 1; 3; 3; 3; 3; 0; 0; 0; 1] /\
+  spec_ToStr_seq 2 [3; 0; 1] = [0xc4].
+Proof. repeat split; reflexivity. Qed.
+
+Example C08_widen_nonvacuous :
+  bytes_cmp (FromStr (newBW 4) [0x61]) (FromStr (newBW 4) [0x61; 0x00]) = Lt /\
+  bytes_cmp (FromStr (newBW 1) [0x80]) (FromStr (newBW 1) [0x7f; 0xff]) = Gt /\
+  Get (newBW 2) [0xa5] (-1) = None /\ Get (newBW 2) [0xa5] 4 = None /\ Get (newBW 2) [0xa5] 3 = Some 1 /\
+  FirstDiff (newBW 4) [0xa5] [0xa5] (-1) (-1) = None /\
+  FirstDiff (newBW 4) [0xa5] [0xa5] (-1) (-3) = Some (-3) /\
+  FirstDiff (newBW 4) [0xa5] [] (-1) (-1) = None /\
+  FirstDiff (newBW 4) [0xa5] [] 0 (-1) = Some 0 /\
+  lcp Z.eqb (FromStr (newBW 4) [0xa5; 0xff]) (FromStr (newBW 4) [0xa5; 0xf7; 0x00]) = [0xa; 5; 0xf] /\
+  FirstDiff (newBW 4) [0xa5; 0xff] [0xa5; 0xf7; 0x00] 0 (-1) = Some 3 /\
+  FromStr (newBW 2) [0xc4] = [3; 0; 1; 0] /\ spec_FromStr_ToStr 2 [3; 0; 1] = [3; 0; 1; 0] /\
+  spec_FromStr_ToStr 2 [3; 0; 1; 2] = [3; 0; 1; 2] /\
+  ToStr (newBW 4) [0x1f; 0x23; 0xff] = Some [0x13; 0xf0] /\
+  ToStr (newBW 8) [0x1f; 0x23] = Some [0x1f; 0x23] /\
+  spec_ToStr_any 4 [0x1f; 0x23; 0xff] = [0x13; 0xf0].
+Proof. repeat split; reflexivity. Qed.
